@@ -212,7 +212,7 @@ pub fn stress(dir: &str, output: &str, seed: u64, thorough: bool) -> Value {
 					let mut evs = vec![];
 					// (many more lookups where the per-lookup state is richest: leaf directories)
 					let per_task = if src == "pmtiles_leaves" { 4000 * rounds } else { (rounds * coords.len() / 16).max(20) };
-					for _ in 0..per_task {
+					for i in 0..per_task {
 						let c = *r.pick(&coords);
 						let h = match reader.get_tile_data(&c).await {
 							Ok(Some(b)) => h31(b.as_slice()) as i64,
@@ -220,6 +220,16 @@ pub fn stress(dir: &str, output: &str, seed: u64, thorough: bool) -> Value {
 							Err(_) => -1,
 						};
 						evs.push(json!({"ev":"Conc","src":src,"t":t,"z":c.z,"x":c.x,"y":c.y,"h":h}));
+						// now and then the BULK form of a lookup: a box stream around the coordinate, while the other tasks go on
+						// with their lookups; every delivered (coordinate, bytes) pair is one more concurrent result
+						if i % 40 == 7 {
+							let max = ((1u64 << c.z) - 1) as u32;
+							let bbox = TileBBox::new(c.z, c.x.saturating_sub(8), c.y.saturating_sub(8), c.x.saturating_add(8).min(max), c.y.saturating_add(8).min(max)).unwrap();
+							let items: Vec<(TileCoord3, Blob)> = reader.get_bbox_tile_stream(bbox).await.collect().await;
+							for (cc, b) in items {
+								evs.push(json!({"ev":"Conc","src":src,"t":t,"z":cc.z,"x":cc.x,"y":cc.y,"h":h31(b.as_slice()) as i64,"via":"stream"}));
+							}
+						}
 					}
 					evs
 				}));
